@@ -5,11 +5,13 @@ package wazevo
 
 import (
 	"io"
+	"unsafe"
 
 	"github.com/tetratelabs/wazero/internal/wasm"
 )
 
 var (
+	_ unsafe.Pointer
 	_ io.Reader
 	_ *wasm.Module
 )
@@ -54,11 +56,19 @@ func opaqueLE64(b []byte, at int) uint64 {
 
 func localMemOff(m *moduleEngine) int { return int(m.parent.offsets.LocalMemoryBegin) }
 
+func bufBase(b []byte) uint64 {
+	if len(b) == 0 {
+		return 0
+	}
+	return uint64(uintptr(unsafe.Pointer(&b[0])))
+}
+
 //@ prop C14 C02
 //@ func (m *moduleEngine) putLocalMemory()
 //@   requires m.module != nil && m.module.MemoryInstance != nil && m.parent != nil && localMemOff(m) >= 0 && localMemOff(m) < 1<<30 && localMemOff(m)+16 <= len(m.opaque)
 //@   requires !verif_same_array(m.opaque, m.module.MemoryInstance.Buffer)
 //@   ensures[length-published-as-64-bits] opaqueLE64(m.opaque, localMemOff(m)+8) == uint64(len(m.module.MemoryInstance.Buffer))
+//@   ensures[base-published] opaqueLE64(m.opaque, localMemOff(m)) == bufBase(m.module.MemoryInstance.Buffer)
 //@   ensures[only-the-memory-words] len(m.opaque) == old(len(m.opaque)) && forall i int :: 0 <= i && i < len(m.opaque) && (i < localMemOff(m) || i >= localMemOff(m)+16) ==> m.opaque[i] == old[byte](m.opaque[i])
 //@   modifies elems(m.opaque)
 
@@ -90,3 +100,18 @@ func globalSlotOK(m *moduleEngine, i wasm.Index) bool {
 //@   ensures[read-where-code-writes] lo == opaqueLE64(m.opaque, globalOff(m, i)) && hi == opaqueLE64(m.opaque, globalOff(m, i)+8)
 //@   may-panic i < m.module.Source.ImportGlobalCount
 //@   modifies nothing
+
+// An imported memory is the exporter's MemoryInstance object itself (or, through a chain of
+// re-exports, whatever the exporter imported): the importer's module context receives its address.
+func asME(e wasm.ModuleEngine) *moduleEngine { me, _ := e.(*moduleEngine); return me }
+func memPtr(mi *wasm.MemoryInstance) uint64 { return uint64(uintptr(unsafe.Pointer(mi))) }
+func impMemOff(m *moduleEngine) int         { return int(m.parent.offsets.ImportedMemoryBegin) }
+
+//@ func (m *moduleEngine) ResolveImportedMemory(importedModuleEngine wasm.ModuleEngine)
+//@   requires asME(importedModuleEngine) != nil && asME(importedModuleEngine).parent != nil && asME(importedModuleEngine).module != nil && m.parent != nil
+//@   requires impMemOff(m) >= 0 && impMemOff(m) < 1<<30 && impMemOff(m)+16 <= len(m.opaque)
+//@   requires impMemOff(asME(importedModuleEngine)) < 1<<30 && (impMemOff(asME(importedModuleEngine)) >= 0 ==> impMemOff(asME(importedModuleEngine))+16 <= len(asME(importedModuleEngine).opaque))
+//@   requires !verif_same_array(m.opaque, asME(importedModuleEngine).opaque)
+//@   ensures[exporters-own-memory] impMemOff(asME(importedModuleEngine)) < 0 ==> opaqueLE64(m.opaque, impMemOff(m)) == memPtr(asME(importedModuleEngine).module.MemoryInstance)
+//@   ensures[re-exported-memory] impMemOff(asME(importedModuleEngine)) >= 0 ==> opaqueLE64(m.opaque, impMemOff(m)) == opaqueLE64(asME(importedModuleEngine).opaque, impMemOff(asME(importedModuleEngine)))
+//@   modifies elems(m.opaque)
